@@ -64,6 +64,31 @@ class Violation:
         return '[%s cfg=%s] %s%s%s' % (self.rule, self.cfg, self.msg, loc, p)
 
 
+_NAMED = None
+
+
+def _is_named_anchor(callee):
+    """does any rule file mention this function (`Type::method`) by name?"""
+    global _NAMED
+    if _NAMED is None:
+        import glob, os, re
+        _NAMED = set()
+        d = os.path.join(os.path.dirname(os.path.abspath(__file__)), 'rules')
+        for fp in glob.glob(os.path.join(d, '*.py')):
+            src = open(fp).read()
+            for m in re.finditer(r"['\"](?:[A-Za-z_][A-Za-z0-9_<> ]*::)+([A-Za-z_][A-Za-z0-9_]*::[a-z_][A-Za-z0-9_]*)['\"]", src):
+                _NAMED.add(m.group(1))
+            for m in re.finditer(r"['\"]([A-Z][A-Za-z0-9_]*::[a-z_][A-Za-z0-9_]*)['\"]", src):
+                _NAMED.add(m.group(1))
+            # TM + '::commit' style
+            for m in re.finditer(r"\b([A-Z]{2,8})\s*\+\s*['\"]::([a-z_][A-Za-z0-9_]*)['\"]", src):
+                _NAMED.add('*::' + m.group(2))
+    segs = core.strip_generics(callee).split('::')
+    if len(segs) < 2:
+        return False
+    return ('%s::%s' % (segs[-2], segs[-1])) in _NAMED or ('*::' + segs[-1]) in _NAMED
+
+
 class Ctx:
     def __init__(self, facts, cfg, prop):
         self.facts = facts
@@ -125,13 +150,18 @@ class Ctx:
         n = len(cs)
         want = exact if exact is not None else floor
         pats = [pattern] if isinstance(pattern, str) else list(pattern)
-        if n < want and not family and all(self.facts.has_fn(p_) for p_ in pats):
+        if n < want and not family:
             # helper extraction: a call to a local function every success path of which passes
-            # `pattern` (must-call summary, depth 3) counts as a site of `pattern`.  Only for
-            # callees defined in this crate: a library routine such as `copy_from_slice` is called
-            # inside many unrelated helpers, which would then stand in for the missing call.
+            # `pattern` (must-call summary, depth 3) counts as a site of `pattern`.  For a library
+            # routine (`copy_from_slice`, `BTreeMap::entry`) many unrelated functions of the crate
+            # call it internally; a function that the rule tables themselves name as an anchor
+            # (`BranchMutator::write_child_page`) has a meaning of its own and never stands in for
+            # a missing library call -- only a helper the rules do not know (a freshly extracted
+            # one) does.
             summ = self._summary(pattern)
-            extra = [c for c in f.calls if c.callee in summ and not c.t.get('virt') and not f.blocks[c.bb]['c'] and c not in cs]
+            local = all(self.facts.has_fn(p_) for p_ in pats)
+            extra = [c for c in f.calls if c.callee in summ and not c.t.get('virt') and not f.blocks[c.bb]['c'] and c not in cs
+                     and (local or not _is_named_anchor(c.callee))]
             if extra:
                 cs = cs + extra
                 n = len(cs)
